@@ -15,29 +15,29 @@ import (
 // SQLite connections (never rqlite's handles), canonical result/dump text.
 
 const (
-	plainDriver = "verif-sql-plain"
-	fixedDriver = "verif-sql-fixed"
+	sqlhPlainDriver = "verif-sql-plain"
+	sqlhFixedDriver = "verif-sql-fixed"
 	// The value every draw of the seeded stand-in for math/rand/v2 returns while
-	// seeded.Fix(fixedDraw) is active: random() is rewritten to fixedRandInt and
-	// every randomblob byte to fixedRandByte.
-	fixedDraw     = uint64(0x1122334455667742)
-	fixedRandInt  = int64(fixedDraw &^ (1 << 63))
-	fixedRandByte = byte(fixedDraw % 256)
+	// seeded.Fix(sqlhFixedDraw) is active: random() is rewritten to sqlhFixedRandInt and
+	// every randomblob byte to sqlhFixedRandByte.
+	sqlhFixedDraw     = uint64(0x1122334455667742)
+	sqlhFixedRandInt  = int64(sqlhFixedDraw &^ (1 << 63))
+	sqlhFixedRandByte = byte(sqlhFixedDraw % 256)
 )
 
-var sqlDriversOnce sync.Once
+var sqlhDriversOnce sync.Once
 
-// registerSQLDrivers registers two database/sql drivers over the linked SQLite:
+// sqlhRegisterDrivers registers two database/sql drivers over the linked SQLite:
 // a plain one, and one whose random()/randomblob() are replaced by constant
 // functions returning exactly the values the rewriter substitutes under
-// seeded.Fix(fixedDraw). Evaluating an ORIGINAL statement on the second driver
+// seeded.Fix(sqlhFixedDraw). Evaluating an ORIGINAL statement on the second driver
 // gives the reference result "every non-deterministic call replaced by a
 // concrete value, nothing else changed".
-func registerSQLDrivers() {
-	sqlDriversOnce.Do(func() {
-		sql.Register(plainDriver, &sqlite3.SQLiteDriver{})
-		sql.Register(fixedDriver, &sqlite3.SQLiteDriver{ConnectHook: func(c *sqlite3.SQLiteConn) error {
-			if err := c.RegisterFunc("random", func() int64 { return fixedRandInt }, false); err != nil {
+func sqlhRegisterDrivers() {
+	sqlhDriversOnce.Do(func() {
+		sql.Register(sqlhPlainDriver, &sqlite3.SQLiteDriver{})
+		sql.Register(sqlhFixedDriver, &sqlite3.SQLiteDriver{ConnectHook: func(c *sqlite3.SQLiteConn) error {
+			if err := c.RegisterFunc("random", func() int64 { return sqlhFixedRandInt }, false); err != nil {
 				return err
 			}
 			return c.RegisterFunc("randomblob", func(n int64) []byte {
@@ -46,7 +46,7 @@ func registerSQLDrivers() {
 				}
 				b := make([]byte, n)
 				for i := range b {
-					b[i] = fixedRandByte
+					b[i] = sqlhFixedRandByte
 				}
 				return b
 			}, false)
@@ -54,12 +54,12 @@ func registerSQLDrivers() {
 	})
 }
 
-var memDBSeq int
+var sqlhMemDBSeq int
 
-// openMemDB opens a private in-memory database with exactly one connection.
-func openMemDB(driver string) (*sql.DB, error) {
-	registerSQLDrivers()
-	memDBSeq++
+// sqlhOpenMemDB opens a private in-memory database with exactly one connection.
+func sqlhOpenMemDB(driver string) (*sql.DB, error) {
+	sqlhRegisterDrivers()
+	sqlhMemDBSeq++
 	db, err := sql.Open(driver, ":memory:")
 	if err != nil {
 		return nil, err
@@ -75,11 +75,11 @@ func openMemDB(driver string) (*sql.DB, error) {
 	return db, nil
 }
 
-type sqlQueryer interface {
+type sqlhQueryer interface {
 	Query(query string, args ...any) (*sql.Rows, error)
 }
 
-func cellText(v any) string {
+func sqlhCellText(v any) string {
 	switch x := v.(type) {
 	case nil:
 		return "N"
@@ -101,8 +101,8 @@ func cellText(v any) string {
 	}
 }
 
-// rowsText drains rows into canonical lines "v|v|v" (typed cells).
-func rowsText(r *sql.Rows) (cols []string, lines []string, err error) {
+// sqlhRowsText drains rows into canonical lines "v|v|v" (typed cells).
+func sqlhRowsText(r *sql.Rows) (cols []string, lines []string, err error) {
 	defer r.Close()
 	cols, err = r.Columns()
 	if err != nil {
@@ -119,16 +119,16 @@ func rowsText(r *sql.Rows) (cols []string, lines []string, err error) {
 		}
 		parts := make([]string, len(vals))
 		for i, v := range vals {
-			parts[i] = cellText(v)
+			parts[i] = sqlhCellText(v)
 		}
 		lines = append(lines, strings.Join(parts, "|"))
 	}
 	return cols, lines, r.Err()
 }
 
-// dumpQ is the logical dump (same format as sim.DumpDB) through any queryer
+// sqlhDumpQ is the logical dump (same format as sim.DumpDB) through any queryer
 // (a *sql.DB or an open *sql.Tx).
-func dumpQ(q sqlQueryer) (string, error) {
+func sqlhDumpQ(q sqlhQueryer) (string, error) {
 	var sb strings.Builder
 	rows, err := q.Query(`SELECT type, name, tbl_name, COALESCE(sql,'') FROM sqlite_master WHERE name NOT LIKE 'sqlite_%' ORDER BY type, name`)
 	if err != nil {
@@ -153,7 +153,7 @@ func dumpQ(q sqlQueryer) (string, error) {
 		if err != nil {
 			return "", fmt.Errorf("dump %s: %w", t, err)
 		}
-		cols, lines, err := rowsText(r)
+		cols, lines, err := sqlhRowsText(r)
 		if err != nil {
 			return "", err
 		}
@@ -166,12 +166,12 @@ func dumpQ(q sqlQueryer) (string, error) {
 	return sb.String(), nil
 }
 
-// stripSQL removes string literals, quoted identifiers and comments from a SQL
+// sqlhStripSQL removes string literals, quoted identifiers and comments from a SQL
 // text (replacing each by a single blank-free placeholder) so that what remains
 // are keywords, bare identifiers, numbers, operators and call syntax. A string
 // literal becomes "§s" ("§snow" when its content is now in any case), a quoted
 // identifier "§i".
-func stripSQL(s string) string {
+func sqlhStripSQL(s string) string {
 	var sb strings.Builder
 	for i := 0; i < len(s); {
 		ch := s[i]
